@@ -541,7 +541,8 @@ def run_bounded(run, ctx, b, known):
     try:
         p = subprocess.run([NATIVE.VENV_PY, os.path.join(ROOT, b["script"])], input=json.dumps(args), stdout=subprocess.PIPE,
                            stderr=subprocess.PIPE, text=True, timeout=b.get("timeout", 1500), env=env, cwd="/")
-        ans = json.loads(p.stdout) if p.stdout.strip() else {"error": p.stderr[-800:]}
+        out_lines = [ln for ln in p.stdout.splitlines() if ln.startswith("{")]
+        ans = json.loads(out_lines[-1]) if out_lines else {"error": (p.stdout[-300:] + p.stderr[-800:])}
     except subprocess.TimeoutExpired:
         ans = {"error": "timeout"}
     except json.JSONDecodeError:
